@@ -194,8 +194,12 @@ CLAIMED = {
         "Partial proof (integer-range logic): frames are promoted to float32/float64 before x - min + 1 is formed (source "
         "pinned), and for every value of an 8/16-bit dtype (and up to 2^24 for wider ones) the log argument is an integer "
         "exactly representable in the promoted dtype, so nothing wraps or rounds before the logarithm; uint8/int8 "
-        "counterexamples for in-dtype arithmetic. Equality 'to float32 rounding' of the final results is oracle-only; "
-        "exhaustive over the ten dtypes.",
+        "counterexamples for in-dtype arithmetic. Float32 crop buffers: with float32 rounding of integers modelled up to 2^25 "
+        "(Model.f32int, compared with numpy's conversion on every run) the argument (x - m) + 1 is exact in the order written "
+        "for all integer values of magnitude <= 2^24 whose difference stays below 2^24 (cropbuf_arg_exact_f32), and it is not "
+        "with the 1 added first (plus_one_first_inexact: 2^24 on a minimum 2^24 - 4 gives 4, not 5); the real "
+        "log_scale_cropbufs_inplace on float32 buffers is compared with that model. Equality 'to float32 rounding' of the "
+        "final results is oracle-only; exhaustive over the ten dtypes.",
         "Lean kernel + standard axioms; translator; promotion table compared with the live NumPy; A-FLOAT.",
         "Lean 4 proof (finite dtype table + omega) + exhaustive dtype correspondence",
         "DESIGN.md §7 C15"),
